@@ -325,3 +325,297 @@ Proof. exact step_EntsOK_gen. Qed.
 
 Theorem EntsOK_init : forall I, EntsOK I (fs_init I).
 Proof. exact EntsOK_init_gen. Qed.
+
+(* ---------- E3: whole histories of foreground operations ---------- *)
+Fixpoint fg_final (I : FileImpl) (s : fs I) (ops : list op) : fs I :=
+  match ops with [] => s | o :: r => fg_final I (fst (step I s o)) r end.
+
+(* fg_final is the state [run] threads through: observations of a concatenated history *)
+Lemma run_app I : forall a b s, run I s (a ++ b) = run I s a ++ run I (fg_final I s a) b.
+Proof.
+  induction a as [|o a IH]; intros b s; cbn [app run fg_final]; [reflexivity|].
+  destruct (step I s o) as [s' v]. cbn [fst app]. rewrite IH. reflexivity.
+Qed.
+
+Theorem run_EntsOK : forall I ops s, EntsOK I s -> EntsOK I (fg_final I s ops).
+Proof.
+  intros I. induction ops as [|o r IH]; intros s H; cbn [fg_final]; [exact H|].
+  apply IH. apply step_EntsOK. exact H.
+Qed.
+
+Corollary run_EntsOK_init : forall I ops, EntsOK I (fg_final I (fs_init I) ops).
+Proof. intros I ops. apply run_EntsOK. apply EntsOK_init. Qed.
+
+(* ---------- E3: the background-write layer never touches entry lists ---------- *)
+Section BGInv.
+Variable mb : nat.
+Notation C := (Conc mb).
+Notation OKst st := (EntsOK C (fsys mb st)).
+
+Lemma fold_left_inv {A B} (P : A -> Prop) (f : A -> B -> A) :
+  (forall a b, P a -> P (f a b)) -> forall l a, P a -> P (fold_left f l a).
+Proof. intros Hf. induction l as [|b l IH]; intros a Ha; cbn [fold_left]; [exact Ha|]. apply IH. apply Hf. exact Ha. Qed.
+
+Lemma set_seg_at_EntsOK (s : fs C) fid i x : EntsOK C s -> EntsOK C (set_seg_at mb s fid i x).
+Proof.
+  intros H. unfold set_seg_at. destruct (i_node C (get_ino C s fid)) as [fn|e]; [|exact H].
+  apply (EntsOK_set_file C). exact H.
+Qed.
+
+Lemma install_ref_EntsOK q loc (s : fs C) r : EntsOK C s -> EntsOK C (install_ref mb q loc s r).
+Proof.
+  intros H. unfold install_ref. destruct (i_node C (get_ino C s (r_file r))) as [fn|e]; [|exact H].
+  destruct (length (segs fn) <=? r_idx r); [exact H|].
+  destruct (nthseg (segs fn) (r_idx r)) as [b [t|]|b l z o]; try exact H.
+  destruct (Nat.eqb t (r_tok r) && _); [|exact H]. apply (EntsOK_set_file C). exact H.
+Qed.
+
+Lemma complete_EntsOK st id : OKst st -> OKst (complete mb st id).
+Proof.
+  intros H. unfold complete. destruct (take_pend (pends mb st) id) as [[q rest]|]; [|exact H].
+  destruct (q_ok q); cbn [fsys]; [|exact H].
+  apply (fold_left_inv (EntsOK C)); [|exact H]. intros s r Hs. apply install_ref_EntsOK. exact Hs.
+Qed.
+
+Lemma complete_data_EntsOK st d : OKst st -> OKst (complete_data mb st d).
+Proof.
+  intros H. unfold complete_data.
+  apply (fold_left_inv (fun st => OKst st)); [|exact H].
+  intros s q Hs. destruct (bytes_eqb (q_data q) d); [apply complete_EntsOK; exact Hs|exact Hs].
+Qed.
+
+Lemma assign_tokens_EntsOK sync : forall refs st boff acc,
+  OKst st -> OKst (fst (assign_tokens mb sync refs st boff acc)).
+Proof.
+  induction refs as [|[fid i] r IH]; intros st boff acc H; cbn [assign_tokens]; [exact H|].
+  destruct (negb (i <? length (file_segs mb (fsys mb st) fid))); [exact H|].
+  destruct (seg_at mb (fsys mb st) fid i) as [b tok|b l z o]; [|exact H].
+  destruct (negb sync && _); [exact H|].
+  apply IH. cbn [fsys]. apply set_seg_at_EntsOK. exact H.
+Qed.
+
+Lemma commit_async_EntsOK st refs : OKst st -> OKst (commit_async mb st refs).
+Proof.
+  intros H. unfold commit_async. destruct refs as [|r0 refs]; [exact H|].
+  pose proof (assign_tokens_EntsOK false (r0 :: refs) st 0 [] H) as H1.
+  destruct (assign_tokens mb false (r0 :: refs) st 0 []) as [st1 [[prs n]|]]; cbn [fst fsys] in *; exact H1.
+Qed.
+
+Lemma install_sync_EntsOK loc bsz (s : fs C) r : EntsOK C s -> EntsOK C (install_sync mb loc bsz s r).
+Proof.
+  intros H. unfold install_sync. destruct (seg_at mb s (r_file r) (r_idx r)); [|exact H].
+  apply set_seg_at_EntsOK. exact H.
+Qed.
+
+Lemma commit_sync_EntsOK st refs : OKst st -> OKst (fst (commit_sync mb st refs)).
+Proof.
+  intros H. unfold commit_sync. destruct refs as [|r0 refs]; [exact H|].
+  pose proof (assign_tokens_EntsOK true (r0 :: refs) st 0 [] H) as H1.
+  destruct (assign_tokens mb true (r0 :: refs) st 0 []) as [st1 [[prs n]|]]; cbn [fst fsys] in *; [|exact H1].
+  destruct (put_fails _ _); cbn [fst fsys]; [exact H1|].
+  apply (fold_left_inv (EntsOK C)); [|exact H1]. intros s r Hs. apply install_sync_EntsOK. exact Hs.
+Qed.
+
+Lemma commit_any_EntsOK (sync : bool) st refs : OKst st ->
+  OKst (fst (if sync then commit_sync mb st refs else (commit_async mb st refs, true))).
+Proof.
+  intros H. destruct sync; [apply commit_sync_EntsOK; exact H|cbn [fst]; apply commit_async_EntsOK; exact H].
+Qed.
+
+Lemma flush_segs_EntsOK sync fid : forall l i st ok pending plen, OKst st ->
+  OKst (fst (fst (fst (flush_segs mb sync fid i l st ok pending plen)))).
+Proof.
+  induction l as [|sg l IH]; intros i st ok pending plen H; cbn [flush_segs]; [exact H|].
+  destruct sg as [b t|b lo z o]; [|apply IH; exact H].
+  destruct (mb / 2 <? length b).
+  - pose proof (commit_any_EntsOK sync st [(fid, i)] H) as H1.
+    destruct (if sync then commit_sync mb st [(fid, i)] else (commit_async mb st [(fid, i)], true)) as [st1 ok1].
+    apply IH. exact H1.
+  - destruct (mb <? plen + length b).
+    + pose proof (commit_any_EntsOK sync st pending H) as H1.
+      destruct (if sync then commit_sync mb st pending else (commit_async mb st pending, true)) as [st1 ok1].
+      apply IH. exact H1.
+    + apply IH. exact H.
+Qed.
+
+Lemma flush_dir_EntsOK : forall fuel sync short recursive st d, OKst st ->
+  OKst (fst (flush_dir mb fuel sync short recursive st d)).
+Proof.
+  induction fuel as [|fuel IH]; intros sync short recursive st d H; cbn [flush_dir]; [exact H|].
+  match goal with |- context [fold_left ?f ?l ?a] =>
+    assert (HF : OKst (fst (fst (fst (fold_left f l a))))) end.
+  { apply (fold_left_inv (fun acc : bst mb * bool * list (nat * nat) * nat => OKst (fst (fst (fst acc))))); [|exact H].
+    intros [[[st0 ok0] pending] plen] e Hacc. cbn [fst] in Hacc.
+    destruct (is_dir C (fsys mb st0) (snd e)).
+    - destruct recursive; [|exact Hacc].
+      pose proof (IH sync short true st0 (snd e) Hacc) as H1.
+      destruct (flush_dir mb fuel sync short true st0 (snd e)) as [st1 ok1]. exact H1.
+    - apply flush_segs_EntsOK. exact Hacc. }
+  match goal with |- context [fold_left ?f ?l ?a] => destruct (fold_left f l a) as [[[st1 ok1] pending] plen] end.
+  cbn [fst] in HF. destruct short; [|exact HF].
+  pose proof (commit_any_EntsOK sync st1 pending HF) as H2.
+  destruct (if sync then commit_sync mb st1 pending else (commit_async mb st1 pending, true)) as [st2 ok2]. exact H2.
+Qed.
+
+Lemma b_flush_EntsOK st path short : OKst st -> OKst (fst (b_flush mb st path short)).
+Proof.
+  intros H. unfold b_flush. destruct (rlookup C (fsys mb st) path) as [d|e]; [|exact H].
+  destruct (negb (is_dir C (fsys mb st) d)); [exact H|].
+  pose proof (flush_dir_EntsOK (length (inodes C (fsys mb st))) false short (String.eqb path "") st d H) as H1.
+  destruct (flush_dir mb (length (inodes C (fsys mb st))) false short (String.eqb path "") st d) as [st1 ok]. exact H1.
+Qed.
+
+Lemma b_marshal_EntsOK tab st : OKst st -> OKst (fst (b_marshal mb tab st)).
+Proof.
+  intros H. unfold b_marshal.
+  pose proof (flush_dir_EntsOK (length (inodes C (fsys mb st))) true true true st root_id H) as H1.
+  destruct (flush_dir mb (length (inodes C (fsys mb st))) true true true st root_id) as [st1 ok].
+  destruct ok; exact H1.
+Qed.
+
+Lemma b_write_EntsOK st h data : OKst st -> OKst (fst (b_write mb st h data)).
+Proof.
+  intros H. unfold b_write. destruct (get_handle C (fsys mb st) h) as [x|]; [|exact H].
+  destruct (negb (h_w C x)); [exact H|].
+  destruct (i_node C (get_ino C (fsys mb st) (h_ino C x))) as [f|e].
+  - destruct (bfn_write mb (h_ino C x) f _ data st) as [[f' p'] st']. cbn [fst with_fs fsys].
+    apply (EntsOK_set_handle C). apply (EntsOK_set_file C). exact H.
+  - cbn [fst with_fs fsys]. apply (EntsOK_set_handle C). exact H.
+Qed.
+
+Theorem bexec_EntsOK tab st e : OKst st -> OKst (fst (bexec mb tab st e)).
+Proof.
+  intros H. destruct e as [o v|p sh v|v|d|m]; cbn [bexec].
+  - assert (Hstep : forall o', OKst (fst (let '(s', v') := step C (fsys mb st) o' in (with_fs mb st s', OObs v')))).
+    { intros o'. pose proof (step_EntsOK C (fsys mb st) o' H) as H1. destruct (step C (fsys mb st) o') as [s' v']. exact H1. }
+    destruct o; try apply Hstep.
+    pose proof (b_write_EntsOK st h data H) as H1. destruct (b_write mb st h data) as [st' [n|x]]; exact H1.
+  - pose proof (b_flush_EntsOK st p sh H) as H1. destruct (b_flush mb st p sh) as [st' [u|x]]; exact H1.
+  - pose proof (b_marshal_EntsOK tab st H) as H1. destruct (b_marshal mb tab st) as [st' [t|x]]; exact H1.
+  - cbn [fst]. apply complete_data_EntsOK. exact H.
+  - exact H.
+Qed.
+
+Theorem bfinal_EntsOK tab : forall es st, OKst st -> OKst (bfinal mb tab st es).
+Proof.
+  induction es as [|e r IH]; intros st H; cbn [bfinal]; [exact H|]. apply IH. apply bexec_EntsOK. exact H.
+Qed.
+
+End BGInv.
+
+Theorem bg_history_EntsOK : forall mb, 1 <= mb -> forall tab s0 es,
+  EntsOK (Conc mb) s0 -> EntsOK (Conc mb) (fsys mb (bfinal mb tab (binit mb tab s0) es)).
+Proof. intros mb _ tab s0 es H. apply bfinal_EntsOK. exact H. Qed.
+
+(* ---------- E4: the manifest loader ---------- *)
+Section LoadInv.
+Variable mb : nat.
+Notation C := (Conc mb).
+
+Lemma mkdirs_EntsOK : forall names (s : fs C) node s' n',
+  Forall (fun t => has_char "/"%char t = false) names -> EntsOK C s ->
+  mkdirs mb s node names = Ok (s', n') -> EntsOK C s'.
+Proof.
+  induction names as [|name r IH]; intros s node s' n' Hn H; cbn [mkdirs].
+  - intros E; inversion E; subst; exact H.
+  - inversion Hn as [|? ? Hname Hr]; subst.
+    destruct (String.eqb name "" || String.eqb name ".") eqn:E1; [apply IH; assumption|].
+    destruct (String.eqb name "..") eqn:E2.
+    + destruct (Nat.eqb node root_id); [discriminate|]. apply IH; assumption.
+    + destruct (i_node C (get_ino C s node)) as [f|ents]; [discriminate|].
+      destruct (ents_find ents name) as [c|].
+      * destruct (is_dir C s c); [|discriminate]. apply IH; assumption.
+      * assert (Hv : valid_name name).
+        { apply valid_name_intro; [|exact Hname]. apply orb_false_iff in E1. destruct E1 as [Ea Eb].
+          unfold special_name. rewrite Ea, Eb, E2. reflexivity. }
+        pose proof (EntsOK_add_child C s {| i_node := IDir []; i_parent := node |} node name H ents_ok_nil Hv) as H2.
+        destruct (add_ino C s {| i_node := IDir []; i_parent := node |}) as [s1 id]. cbn [fst snd] in H2.
+        apply IH; [exact Hr|exact H2].
+Qed.
+
+Lemma In_removelast {A} (l : list A) x : In x (removelast l) -> In x l.
+Proof.
+  induction l as [|a l IH]; cbn [removelast]; [auto|]. destruct l as [|b l']; [intros []|].
+  intros [<-|Hin]; [left; reflexivity|right; apply IH; exact Hin].
+Qed.
+
+Lemma last_In_or_default {A} (l : list A) d : last l d = d \/ In (last l d) l.
+Proof.
+  induction l as [|a l IH]; [left; reflexivity|]. cbn [last]. destruct l as [|b l']; [right; left; reflexivity|].
+  destruct IH as [E|Hin]; [left; exact E|right; right; exact Hin].
+Qed.
+
+Lemma create_file_EntsOK (s : fs C) path s' r :
+  EntsOK C s -> create_file_and_parents mb s path = Ok (s', r) -> EntsOK C s'.
+Proof.
+  intros H. unfold create_file_and_parents.
+  destruct (mkdirs mb s root_id (removelast (split_slash path))) as [[s1 node]|e] eqn:Em; [|discriminate].
+  assert (H1 : EntsOK C s1).
+  { eapply mkdirs_EntsOK; [|exact H|exact Em]. apply Forall_forall. intros t Ht.
+    apply (split_slash_nosep path). apply In_removelast. exact Ht. }
+  destruct (String.eqb (last (split_slash path) "") "."); [intros E; inversion E; subst; exact H1|].
+  destruct (special_name (last (split_slash path) "")) eqn:Esp; [discriminate|].
+  destruct (i_node C (get_ino C s1 node)) as [f|ents]; [discriminate|].
+  destruct (ents_find ents (last (split_slash path) "")) as [c|].
+  - destruct (is_dir C s1 c); [discriminate|]. intros E; inversion E; subst; exact H1.
+  - assert (Hv : valid_name (last (split_slash path) "")).
+    { apply valid_name_intro; [exact Esp|]. destruct (last_In_or_default (split_slash path) "") as [E|Hin].
+      - rewrite E. reflexivity.
+      - apply (split_slash_nosep path). exact Hin. }
+    pose proof (EntsOK_add_child C s1 {| i_node := IFile (I := C) f_new; i_parent := node |} node _ H1 ents_ok_nil Hv) as H2.
+    destruct (add_ino C s1 {| i_node := IFile (I := C) f_new; i_parent := node |}) as [s2 id]. cbn [fst snd] in H2.
+    intros E; inversion E; subst. exact H2.
+Qed.
+
+Lemma load_tokens_EntsOK tab : forall toks dirname (s : fs C) bl anyfile segIdx pos s' af nb,
+  EntsOK C s -> load_tokens mb tab dirname toks s bl anyfile segIdx pos = Ok (s', af, nb) -> EntsOK C s'.
+Proof.
+  induction toks as [|t toks IH]; intros dirname s bl anyfile segIdx pos s' af nb H; cbn [load_tokens].
+  - intros E; inversion E; subst; exact H.
+  - destruct (classify tab t) as [b|offset len nm|]; [| |discriminate].
+    + destruct anyfile; [discriminate|]. apply IH. exact H.
+    + destruct bl as [|b0 bl0] eqn:Ebl; [discriminate|]. rewrite <- Ebl.
+      destruct (create_file_and_parents mb s (dirname ++ "/" ++ manifest_unescape nm)%string) as [[s1 [fid|]]|e] eqn:Ecf; [| |discriminate].
+      * pose proof (create_file_EntsOK _ _ _ _ H Ecf) as H1.
+        destruct (if offset <? pos then (0, 0) else (segIdx, pos)) as [si p0].
+        destruct (map_range (S (length bl)) bl si p0 offset len []) as [[[si' p'] sgs]|]; [|discriminate].
+        destruct (i_node C (get_ino C s1 fid)) as [fn|e]; [|discriminate].
+        apply IH. apply (EntsOK_set_file C). exact H1.
+      * destruct (Nat.eqb len 0); [|discriminate]. apply IH. eapply create_file_EntsOK; eassumption.
+Qed.
+
+Lemma load_streams_EntsOK tab : forall streams (s s' : fs C),
+  EntsOK C s -> load_streams mb tab streams s = Ok s' -> EntsOK C s'.
+Proof.
+  induction streams as [|st r IH]; intros s s' H; cbn [load_streams]; [intros E; inversion E; subst; exact H|].
+  destruct (split_char " "%char st) as [|d toks]; [discriminate|].
+  destruct (load_tokens mb tab (manifest_unescape d) toks s [] false 0 0) as [[[s1 af] nb]|e] eqn:El; [|discriminate].
+  destruct (negb af || Nat.eqb nb 0 || String.eqb (manifest_unescape d) ""); [discriminate|].
+  apply IH. eapply load_tokens_EntsOK; eassumption.
+Qed.
+
+End LoadInv.
+
+Theorem b_load_EntsOK : forall mb tab txt s, b_load mb tab txt = Ok s -> EntsOK (Conc mb) s.
+Proof.
+  intros mb tab txt s. unfold b_load. destruct (negb _); [discriminate|]. intros E.
+  eapply load_streams_EntsOK; [|exact E]. apply EntsOK_init.
+Qed.
+
+(* a loaded (or empty) collection followed by any event history *)
+Corollary loaded_history_EntsOK : forall mb, 1 <= mb -> forall tab txt s0 es,
+  load_or_empty mb tab txt = Some s0 -> EntsOK (Conc mb) (fsys mb (bfinal mb tab (binit mb tab s0) es)).
+Proof.
+  intros mb Hmb tab txt s0 es. unfold load_or_empty. intros E. apply bg_history_EntsOK; [exact Hmb|].
+  destruct (String.eqb txt ""); [inversion E; apply EntsOK_init|].
+  destruct (b_load mb tab txt) as [s|e] eqn:El; [|discriminate]. inversion E; subst. eapply b_load_EntsOK; exact El.
+Qed.
+
+Print Assumptions ents_put_ok.
+Print Assumptions ents_del_ok.
+Print Assumptions step_EntsOK.
+Print Assumptions run_EntsOK.
+Print Assumptions bg_history_EntsOK.
+Print Assumptions EntsOK_init.
+Print Assumptions b_load_EntsOK.
+Print Assumptions loaded_history_EntsOK.
